@@ -48,6 +48,9 @@ def corpus():
     out.append(mk([("g", 2, [T(-1, [V(0), P(0, -2)]), T(-2, [V(1), P(0, -1)])], ["0", "1"])], ["tau"]))    # alpha kernel
     out.append(mk([("x", 1, [T(1, [V(1)])], ["0"]), ("y", 1, [T(2, [V(2)])], ["1"]), ("z", 1, [], ["1"])], []))       # nilpotent
     out.append(mk([("x", 1, [T(3, [])], ["0"])], []))                                                  # x' = b
+    out.append(mk([("x", 1, [T(1, [P(0)]), T(1, [P(1)])], ["0"])], ["a", "b0"]))                       # x' = a + b0  (offset is a sum)
+    out.append(mk([("x", 1, [T(2, [P(0)]), T(Fraction(-1, 2), [P(1)]), T(3, [])], ["1"])], ["a", "b0"]))   # x' = 2a - b0/2 + 3
+    out.append(mk([("x", 1, [T(-1, [V(0), P(0, -1)]), T(1, [P(1)]), T(1, [P(2)])], ["0"])], ["tau", "E_L", "I_e"]))   # x' = -x/tau + E_L + I_e
     out.append(mk([("x", 1, [T(-1, [V(0), P(0, -1)]), T(1, [P(1)])], ["0"])], ["tau", "E_L"]))        # x' = a x + b
     out.append(mk([("x", 1, [T(-1, [V(0), P(0, -1)]), T(1, [V(1)])], ["0"]), ("y", 1, [T(-2, [V(1)]), T(1, [])], ["0"])], ["tau"]))  # depends on offset eq
     return out
@@ -74,8 +77,10 @@ def gen_linear(rng):
         if i > 0:
             src = i - 1 if kind == "chain" else 0
             terms.append(T(rng.choice([1, 2, Fraction(1, 2)]), [[["v", src], 1]]))
-        if i == 0 and rng.random() < 0.25:
+        if i == 0 and rng.random() < 0.3:
             terms.append(T(rng.choice([1, 2]), ([[["p", rng.randrange(nparams)], 1]] if nparams and rng.random() < 0.5 else [])))
+            if rng.random() < 0.5:
+                terms.append(T(rng.choice([3, Fraction(1, 2), -1]), ([[["p", rng.randrange(nparams)], 2]] if nparams and rng.random() < 0.6 else [])))
         entries.append({"name": names[i], "order": 1, "kind": "ode", "rhs": U.merge_terms(terms), "ivs": [U.coef_str(rng.choice(U.DYADIC))], "single_iv": True, "gen_kind": kind})
     return {"entries": entries, "params": params, "funs": []}
 
